@@ -26,6 +26,7 @@ from .schema import (
     parse_schema,
 )
 from .types import Schema, AvroMessage, NamedSchemas
+from ._schema_common import default_to_datum
 from ._read_common import (
     SchemaResolutionError,
     MAGIC,
@@ -586,7 +587,9 @@ def read_record(
             for f_name, field in readers_field_dict.items():
                 if f_name not in writer_fields and f_name not in record:
                     if "default" in field:
-                        record[field["name"]] = field["default"]
+                        record[field["name"]] = default_to_datum(
+                            field["default"], field["type"], named_schemas["reader"]
+                        )
                     else:
                         msg = f"No default value for field {field['name']} in {reader_schema['name']}"
                         raise SchemaResolutionError(msg)
